@@ -375,6 +375,76 @@ theorem rtrim_decomp (u : Bytes) :
       | nil => simp at hy
       | cons w v'' => simpa [List.getLast?_cons_cons] using hy
 
+/-! ## `p_strchomp` is `trim` -/
+
+theorem isSpace_eq : isSpace = IniSpec.isSpace := rfl
+
+theorem dropWhile_append_stop {α} (p : α → Bool) (a : List α) (c : α) (t : List α)
+    (ha : ∀ x ∈ a, p x = true) (hc : p c = false) : (a ++ c :: t).dropWhile p = c :: t := by
+  induction a with
+  | nil => simp [List.dropWhile, hc]
+  | cons x xs ih =>
+    have hx := ha x (by simp)
+    simp only [List.cons_append, List.dropWhile_cons, hx, if_true]
+    exact ih (fun y hy => ha y (by simp [hy]))
+
+/-- any string is blanks followed by a block that does not start with a blank -/
+theorem ltrim_decomp (s : Bytes) :
+    ∃ l u, s = l ++ u ∧ AllSpace l ∧ u = s.dropWhile isSpace ∧ (u = [] ∨ ∃ y, u.head? = some y ∧ isSpace y = false) := by
+  induction s with
+  | nil => exact ⟨[], [], rfl, by intro x hx; simp at hx, rfl, Or.inl rfl⟩
+  | cons x v ih =>
+    by_cases hx : isSpace x = true
+    · obtain ⟨l, u, hv, hl, hu, hc⟩ := ih
+      refine ⟨x :: l, u, by simp [hv], ?_, ?_, hc⟩
+      · intro z hz; simp only [List.mem_cons] at hz
+        rcases hz with hz | hz
+        · subst hz; exact hx
+        · exact hl z hz
+      · simp [List.dropWhile_cons, hx, hu]
+    · refine ⟨[], x :: v, rfl, by intro z hz; simp at hz, ?_, Or.inr ⟨x, rfl, by simpa using hx⟩⟩
+      simp [List.dropWhile_cons, hx]
+
+theorem chomp_eq_trim (s : Bytes) : chomp s = IniSpec.trim s := by
+  obtain ⟨l, u, hs, hl, hu, hc⟩ := ltrim_decomp s
+  obtain ⟨u', t, hu2, ht, hc2⟩ := rtrim_decomp u
+  unfold IniSpec.trim
+  rw [← isSpace_eq, ← hu]
+  rcases hc2 with hnil | ⟨y, hy, hys⟩
+  · -- everything is blank
+    subst hnil
+    simp only [List.nil_append] at hu2
+    have hall : AllSpace s := by
+      intro x hx; rw [hs] at hx
+      rcases List.mem_append.mp hx with h | h
+      · exact hl x h
+      · rw [hu2] at h; exact ht x h
+    rw [chomp_allSpace s hall, hu2]
+    have : t.reverse.dropWhile isSpace = [] := dropWhile_all _ _ (fun x hx => ht x (by simpa using hx))
+    rw [this]; rfl
+  · -- u' is a non-empty block ending in a non-blank; it also starts with a non-blank
+    have hne : u' ≠ [] := by intro h; rw [h] at hy; simp at hy
+    obtain ⟨a, ha, has⟩ : ∃ a, u'.head? = some a ∧ isSpace a = false := by
+      rcases hc with h | ⟨a, ha, has⟩
+      · rw [h] at hu2
+        have : u' = [] := by
+          have := congrArg List.length hu2; simp at this; exact List.eq_nil_of_length_eq_zero (by omega)
+        exact absurd this hne
+      · refine ⟨a, ?_, has⟩
+        rw [hu2] at ha
+        cases u' with
+        | nil => exact absurd rfl hne
+        | cons b bs => simpa using ha
+    have h1 : chomp s = u' := by
+      rw [hs, hu2, ← List.append_assoc]
+      exact chomp_sandwich' l u' t a y hl ht ha hy has hys
+    rw [h1, hu2]
+    obtain ⟨ys, hY⟩ := List.getLast?_eq_some_iff.mp hy
+    rw [hY]
+    simp only [List.reverse_append, List.reverse_cons, List.reverse_nil, List.nil_append, List.singleton_append]
+    rw [dropWhile_append_stop isSpace t.reverse y ys.reverse (fun x hx => ht x (by simpa using hx)) hys]
+    simp
+
 /-! ## `sscanf` on the shapes that occur in rendered lines -/
 
 theorem scanRun_stop (set : List UInt8) (a : Bytes) (c : UInt8) (t : Bytes)
@@ -460,6 +530,28 @@ theorem kv_sq (K post V rest : Bytes) (hK : K ≠ []) (hK61 : ∀ x ∈ K, x ∉
     scan_lit_ne 34 39 _ _ (by decide)
   simp only [kvPatterns, kvCascade, patDq, patSq, scan_key _ K post _ hK hK61 hpost hR, hne,
     scan_quoted 39 V rest hV hq]
+
+/-- nothing after the '=' but, possibly, a comment: none of the three formats stores a value -/
+theorem kv_none (K post R : Bytes) (hK : K ≠ []) (hK61 : ∀ x ∈ K, x ∉ [(61 : UInt8)])
+    (hpost : AllSpace post) (hR : R = [] ∨ ∃ m u, R = m :: u ∧ (m = 59 ∨ m = 35)) :
+    kvCascade kvPatterns (K ++ 61 :: (post ++ R)) = none := by
+  have hRS : RStart R := by
+    rcases hR with h | ⟨m, u, h, hm⟩
+    · exact Or.inl h
+    · exact Or.inr ⟨m, u, h, by rcases hm with hm | hm <;> subst hm <;> decide⟩
+  have h1 : scan [.lit 34, .notIn [34] none, .lit 34] R = [] := by
+    rcases hR with h | ⟨m, u, h, hm⟩
+    · subst h; exact scan_lit_nil _ _
+    · subst h; exact scan_lit_ne 34 m _ _ (by rcases hm with hm | hm <;> subst hm <;> decide)
+  have h2 : scan [.lit 39, .notIn [39] none, .lit 39] R = [] := by
+    rcases hR with h | ⟨m, u, h, hm⟩
+    · subst h; exact scan_lit_nil _ _
+    · subst h; exact scan_lit_ne 39 m _ _ (by rcases hm with hm | hm <;> subst hm <;> decide)
+  have h3 : scan [.notIn [59, 35] none] R = [] := by
+    rcases hR with h | ⟨m, u, h, hm⟩
+    · subst h; simp [scan, scanRun]
+    · subst h; rcases hm with hm | hm <;> subst hm <;> simp [scan, scanRun]
+  simp only [kvPatterns, kvCascade, patDq, patSq, patPlain, scan_key _ K post R hK hK61 hpost hRS, h1, h2, h3]
 
 /-- what the loop does with a stored pair -/
 def addKey (st : PState) (kv : Bytes × Bytes) : PState :=
@@ -578,16 +670,33 @@ def QStyle.bytes : QStyle → Bytes
 /-- the conditions `IniSpec.Entry.wf` puts on a value, per quoting style -/
 def ValueOk : QStyle → Bytes → Prop
   | .none, v => Trimmed v ∧ (∀ x ∈ v, x ∉ [(59 : UInt8), 35]) ∧ v.head? ≠ some 34 ∧ v.head? ≠ some 39
-  | .single, v => (∀ x ∈ v, x ∉ [(39 : UInt8)]) ∧ (v = [] ∨ Trimmed v) ∧ v ≠ [34, 34]
-  | .double, v => (∀ x ∈ v, x ∉ [(34 : UInt8)]) ∧ (v = [] ∨ Trimmed v) ∧ v ≠ [39, 39]
+  | .single, v => (∀ x ∈ v, x ∉ [(39 : UInt8)]) ∧ chomp v ≠ [34, 34]
+  | .double, v => (∀ x ∈ v, x ∉ [(34 : UInt8)]) ∧ chomp v ≠ [39, 39]
 
-/-- the cascade on `K = post [q]value[q] tail` stores `K` and a string that chomps (and un-quotes) to `value` -/
+/-- the value that ends up stored: an unquoted one as it is, a quoted one without the blanks at its ends -/
+def storedValue : QStyle → Bytes → Bytes
+  | .none, v => v
+  | _, v => chomp v
+
+theorem chomp_subset (s : Bytes) : ∀ x ∈ chomp s, x ∈ s := by
+  intro x hx
+  unfold chomp at hx
+  simp only at hx
+  split at hx
+  · simp at hx
+  · split at hx
+    · simp at hx
+    · exact List.mem_of_mem_drop (List.mem_of_mem_take hx)
+
+theorem chomp_nil : chomp [] = [] := by decide
+
+/-- the cascade on `K = post [q]value[q] tail` stores `K` and a string that chomps (and un-quotes) to the stored value -/
 theorem entry_cascade (K post value trail tail : Bytes) (q : QStyle)
     (hK : K ≠ []) (hK61 : ∀ x ∈ K, x ∉ [(61 : UInt8)]) (hpost : AllSpace post) (htr : AllSpace trail)
     (hv : ValueOk q value) (ht : Tail trail tail) :
     ∃ rawv, kvCascade kvPatterns (K ++ 61 :: (post ++ (q.bytes ++ value ++ q.bytes ++ tail))) = some (K, rawv)
       ∧ rawv.length ≤ (q.bytes ++ value ++ q.bytes ++ tail).length
-      ∧ (if chomp rawv == [34, 34] || chomp rawv == [39, 39] then [] else chomp rawv) = value := by
+      ∧ (if chomp rawv == [34, 34] || chomp rawv == [39, 39] then [] else chomp rawv) = storedValue q value := by
   cases q with
   | none =>
     obtain ⟨htrim, hm, h34, h39⟩ := hv
@@ -616,10 +725,10 @@ theorem entry_cascade (K post value trail tail : Bytes) (q : QStyle)
           simp only [beq_eq_false_iff_ne, ne_eq]; intro h; injection h with h _; exact h34 h
         have e2 : ((v0 :: v') == [39, 39]) = false := by
           simp only [beq_eq_false_iff_ne, ne_eq]; intro h; injection h with h _; exact h39 h
-        simp [e1, e2]
+        simp [e1, e2, storedValue]
   | double =>
-    obtain ⟨hq, hte, hne⟩ := hv
-    rcases hte with hte | hte
+    obtain ⟨hq, hne⟩ := hv
+    by_cases hte : value = []
     · -- `""`: the first two formats fail, the plain one stores the quotes, which are then dropped
       subst hte
       have hVm : ∀ x ∈ [(34 : UInt8), 34], x ∉ [(59 : UInt8), 35] := by decide
@@ -634,21 +743,17 @@ theorem entry_cascade (K post value trail tail : Bytes) (q : QStyle)
       refine ⟨W, by simpa [QStyle.bytes] using hc, ?_, ?_⟩
       · have := scan_length_le [.notIn [59, 35] none] ([34, 34] ++ tail) W (by rw [hW]; simp)
         simpa [QStyle.bytes] using this
-      · rw [hchomp]; rfl
-    · have hvne := hte.ne_nil
-      have hc := kv_dq K post value tail hK hK61 hpost hvne hq
-      have hchomp : chomp value = value := by
-        have := chomp_of_trimmed_append value [] hte (by intro x hx; simp at hx)
-        simpa using this
+      · rw [hchomp]; simp [storedValue, chomp_nil]
+    · have hc := kv_dq K post value tail hK hK61 hpost hte hq
       refine ⟨value, by simpa [QStyle.bytes] using hc, by simp [QStyle.bytes]; omega, ?_⟩
-      rw [hchomp]
-      have e1 : (value == [34, 34]) = false := by
-        simp only [beq_eq_false_iff_ne, ne_eq]; intro h; subst h; exact hq 34 (by simp) (by simp)
-      have e2 : (value == [39, 39]) = false := by simp [hne]
-      simp [e1, e2]
+      have e1 : (chomp value == [34, 34]) = false := by
+        simp only [beq_eq_false_iff_ne, ne_eq]; intro h
+        exact hq 34 (chomp_subset value 34 (by rw [h]; simp)) (by simp)
+      have e2 : (chomp value == [39, 39]) = false := by simp [hne]
+      simp [e1, e2, storedValue]
   | single =>
-    obtain ⟨hq, hte, hne⟩ := hv
-    rcases hte with hte | hte
+    obtain ⟨hq, hne⟩ := hv
+    by_cases hte : value = []
     · subst hte
       have hVm : ∀ x ∈ [(39 : UInt8), 39], x ∉ [(59 : UInt8), 35] := by decide
       obtain ⟨W, hW, t', hWt, ht'⟩ := scan_plain_tail [39, 39] trail tail (by simp) hVm htr ht
@@ -662,18 +767,14 @@ theorem entry_cascade (K post value trail tail : Bytes) (q : QStyle)
       refine ⟨W, by simpa [QStyle.bytes] using hc, ?_, ?_⟩
       · have := scan_length_le [.notIn [59, 35] none] ([39, 39] ++ tail) W (by rw [hW]; simp)
         simpa [QStyle.bytes] using this
-      · rw [hchomp]; rfl
-    · have hvne := hte.ne_nil
-      have hc := kv_sq K post value tail hK hK61 hpost hvne hq
-      have hchomp : chomp value = value := by
-        have := chomp_of_trimmed_append value [] hte (by intro x hx; simp at hx)
-        simpa using this
+      · rw [hchomp]; simp [storedValue, chomp_nil]
+    · have hc := kv_sq K post value tail hK hK61 hpost hte hq
       refine ⟨value, by simpa [QStyle.bytes] using hc, by simp [QStyle.bytes]; omega, ?_⟩
-      rw [hchomp]
-      have e1 : (value == [39, 39]) = false := by
-        simp only [beq_eq_false_iff_ne, ne_eq]; intro h; subst h; exact hq 39 (by simp) (by simp)
-      have e2 : (value == [34, 34]) = false := by simp [hne]
-      simp [e1, e2]
+      have e1 : (chomp value == [39, 39]) = false := by
+        simp only [beq_eq_false_iff_ne, ne_eq]; intro h
+        exact hq 39 (chomp_subset value 39 (by rw [h]; simp)) (by simp)
+      have e2 : (chomp value == [34, 34]) = false := by simp [hne]
+      simp [e1, e2, storedValue]
 
 /-! ## from the spec's well-formedness to the model's predicates -/
 
@@ -752,16 +853,40 @@ theorem lineOf_eq (pfx L : Bytes) (hsh : bomShift (pfx ++ L) = pfx.length) (h0 :
   rw [this]
   exact clip_of_le _ (Nat.le_trans (chomp_length_le L) hlen)
 
+/-- the line has no value text at all: unquoted and empty -/
+def NoValue (e : IniSpec.Entry) : Prop := e.quote = .none ∧ e.value = []
+
+instance (e : IniSpec.Entry) : Decidable (NoValue e) := by unfold NoValue; exact inferInstance
+
 /-- the effect a line of the document has on the loop state -/
 def bodyEffect (st : PState) : IniSpec.Body → PState
   | .blank _ => st
   | .comment _ _ => st
-  | .entry e => addKey st (e.key, e.value)
+  | .entry e => match e.binding with
+    | none => st
+    | some kv => addKey st kv
+
+theorem binding_of_value (e : IniSpec.Entry) (hnv : ¬ NoValue e) :
+    e.binding = some (e.key, storedValue (quoteStyle e.quote) e.value) := by
+  unfold IniSpec.Entry.binding
+  cases hq : e.quote with
+  | none =>
+    have : e.value.isEmpty = false := by
+      cases hv : e.value with
+      | nil => exact absurd ⟨hq, hv⟩ hnv
+      | cons _ _ => rfl
+    simp [this, quoteStyle, storedValue]
+  | single => simp [quoteStyle, storedValue, chomp_eq_trim]
+  | double => simp [quoteStyle, storedValue, chomp_eq_trim]
+
+theorem binding_noValue (e : IniSpec.Entry) (hnv : NoValue e) : e.binding = none := by
+  unfold IniSpec.Entry.binding
+  rw [hnv.1, hnv.2]; rfl
 
 theorem kvCascade_nil : kvCascade kvPatterns [] = none := by
   simp [kvCascade, kvPatterns, patDq, patSq, patPlain, patKey, scan, scanRun]
 
-theorem chomp_entry (e : IniSpec.Entry) (eol : IniSpec.Eol) (hwf : e.wf = true) :
+theorem chomp_entry (e : IniSpec.Entry) (eol : IniSpec.Eol) (hwf : e.wf = true) (hnv : ¬ NoValue e) :
     ∃ tail, Tail e.trail tail ∧
       chomp (e.render ++ eol.bytes) =
         (e.key ++ e.pre) ++ 61 :: (e.post ++ (e.quote.bytes ++ e.value ++ e.quote.bytes ++ tail)) := by
@@ -773,8 +898,8 @@ theorem chomp_entry (e : IniSpec.Entry) (eol : IniSpec.Eol) (hwf : e.wf = true) 
     cases hqq : e.quote with
     | none =>
       rw [hqq] at hq
-      simp only [Bool.and_eq_true] at hq
-      obtain ⟨a, b, _, hb, _, hsb⟩ := trimmed_Trimmed hq.1.1.1.1
+      simp only [Bool.and_eq_true, Bool.or_eq_true, List.isEmpty_iff] at hq
+      obtain ⟨a, b, _, hb, _, hsb⟩ := trimmed_Trimmed (hq.1.1.1.1.resolve_left (fun h => hnv ⟨hqq, h⟩))
       exact ⟨b, by simpa [IniSpec.Quote.bytes] using hb, hsb⟩
     | single => exact ⟨39, List.getLast?_eq_some_iff.mpr ⟨[39] ++ e.value, by simp [IniSpec.Quote.bytes]⟩, by decide⟩
     | double => exact ⟨34, List.getLast?_eq_some_iff.mpr ⟨[34] ++ e.value, by simp [IniSpec.Quote.bytes]⟩, by decide⟩
@@ -824,14 +949,16 @@ theorem chomp_entry (e : IniSpec.Entry) (eol : IniSpec.Eol) (hwf : e.wf = true) 
       apply getLast?_append_some
       exact hym
 
-theorem valueOk_of_wf (e : IniSpec.Entry) (hwf : e.wf = true) : ValueOk (quoteStyle e.quote) e.value := by
+theorem valueOk_of_wf (e : IniSpec.Entry) (hwf : e.wf = true) (hnv : ¬ NoValue e) :
+    ValueOk (quoteStyle e.quote) e.value := by
   simp only [IniSpec.Entry.wf, Bool.and_eq_true] at hwf
   have hq := hwf.1.2
   cases hqq : e.quote with
   | none =>
     rw [hqq] at hq
-    simp only [Bool.and_eq_true, bne_iff_ne, ne_eq] at hq
+    simp only [Bool.and_eq_true, bne_iff_ne, ne_eq, Bool.or_eq_true, List.isEmpty_iff] at hq
     obtain ⟨⟨⟨⟨h1, h2⟩, h3⟩, h4⟩, h5⟩ := hq
+    have h1 : IniSpec.trimmed e.value = true := h1.resolve_left (fun h => hnv ⟨hqq, h⟩)
     refine ⟨trimmed_Trimmed h1, ?_, h4, h5⟩
     intro x hx hm
     simp only [List.mem_cons, List.mem_nil_iff, or_false] at hm
@@ -840,19 +967,19 @@ theorem valueOk_of_wf (e : IniSpec.Entry) (hwf : e.wf = true) : ValueOk (quoteSt
     · exact not_contains h2 x hx (by simp [hm])
   | single =>
     rw [hqq] at hq
-    simp only [Bool.and_eq_true, Bool.or_eq_true, bne_iff_ne, ne_eq, List.isEmpty_iff] at hq
-    exact ⟨not_contains hq.1.1, hq.1.2.imp id trimmed_Trimmed, hq.2⟩
+    simp only [Bool.and_eq_true, bne_iff_ne, ne_eq] at hq
+    exact ⟨not_contains hq.1, by rw [chomp_eq_trim]; exact hq.2⟩
   | double =>
     rw [hqq] at hq
-    simp only [Bool.and_eq_true, Bool.or_eq_true, bne_iff_ne, ne_eq, List.isEmpty_iff] at hq
-    exact ⟨not_contains hq.1.1, hq.1.2.imp id trimmed_Trimmed, hq.2⟩
+    simp only [Bool.and_eq_true, bne_iff_ne, ne_eq] at hq
+    exact ⟨not_contains hq.1, by rw [chomp_eq_trim]; exact hq.2⟩
 
-theorem stepLine_entry (st : PState) (e : IniSpec.Entry) (tail : Bytes) (hwf : e.wf = true)
+theorem stepLine_entry (st : PState) (e : IniSpec.Entry) (tail : Bytes) (hwf : e.wf = true) (hnv : ¬ NoValue e)
     (ht : Tail e.trail tail)
     (hlen : ((e.key ++ e.pre) ++ 61 :: (e.post ++ (e.quote.bytes ++ e.value ++ e.quote.bytes ++ tail))).length ≤ maxLine) :
     stepLine true st ((e.key ++ e.pre) ++ 61 :: (e.post ++ (e.quote.bytes ++ e.value ++ e.quote.bytes ++ tail)))
-      = addKey st (e.key, e.value) := by
-  have hv := valueOk_of_wf e hwf
+      = addKey st (e.key, storedValue (quoteStyle e.quote) e.value) := by
+  have hv := valueOk_of_wf e hwf hnv
   simp only [IniSpec.Entry.wf, Bool.and_eq_true] at hwf
   obtain ⟨⟨⟨⟨⟨⟨⟨⟨⟨⟨⟨⟨hlead, hpre⟩, hpost⟩, htrail⟩, hkplain⟩, hktrim⟩, hk61⟩, hk35⟩, hk59⟩, hk91⟩, hvplain⟩, hq⟩, hcm⟩ := hwf
   have hkt := trimmed_Trimmed hktrim
@@ -879,12 +1006,87 @@ theorem stepLine_entry (st : PState) (e : IniSpec.Entry) (tail : Bytes) (hwf : e
   have hlenR : (chomp rawv).length ≤ maxLine := by
     have := chomp_length_le rawv
     simp only [List.length_append, List.length_cons] at hlen hrl; omega
-  refine stepLine_kv st _ (e.key ++ e.pre) rawv e.key (chomp rawv) e.value ?_ ?_ ?_ hcas ?_ (clip_of_le _ hlenR) hfix
+  refine stepLine_kv st _ (e.key ++ e.pre) rawv e.key (chomp rawv) _ ?_ ?_ ?_ hcas ?_ (clip_of_le _ hlenR) hfix
   · rw [hT0]; intro h; subst h; simp [hk0] at hk91
   · rw [hT0]; intro h; subst h; exact not_contains hk35 35 hmem0 (by simp)
   · rw [hT0]; intro h; subst h; exact not_contains hk59 59 hmem0 (by simp)
   · rw [chomp_of_trimmed_append e.key e.pre ⟨k0, kb, hk0, hkb, hsk0, hskb⟩ (allBlank_allSpace hpre)]
     exact clip_of_le _ hlenK
+
+/-- `key =` with no value text: after `p_strchomp` the line is the key, '=', and possibly blanks and a comment -/
+theorem chomp_entry_noValue (e : IniSpec.Entry) (eol : IniSpec.Eol) (hwf : e.wf = true) (hnv : NoValue e) :
+    ∃ post R, AllSpace post ∧ (R = [] ∨ ∃ m u, R = m :: u ∧ (m = 59 ∨ m = 35)) ∧
+      chomp (e.render ++ eol.bytes) = (e.key ++ e.pre) ++ 61 :: (post ++ R) := by
+  simp only [IniSpec.Entry.wf, Bool.and_eq_true] at hwf
+  obtain ⟨⟨⟨⟨⟨⟨⟨⟨⟨⟨⟨⟨hlead, hpre⟩, hpost⟩, htrail⟩, hkplain⟩, hktrim⟩, hk61⟩, hk35⟩, hk59⟩, hk91⟩, hvplain⟩, hq⟩, hcm⟩ := hwf
+  obtain ⟨k0, kb, hk0, hkb, hsk0, hskb⟩ := trimmed_Trimmed hktrim
+  obtain ⟨hq0, hv0⟩ := hnv
+  cases hc : e.comment with
+  | none =>
+    refine ⟨[], [], by intro x hx; simp at hx, Or.inl rfl, ?_⟩
+    have hsplit : e.render ++ eol.bytes =
+        e.lead ++ ((e.key ++ e.pre) ++ 61 :: ([] ++ [])) ++ (e.post ++ e.trail ++ eol.bytes) := by
+      simp [IniSpec.Entry.render, hc, hq0, hv0, IniSpec.Quote.bytes, List.append_assoc]
+    rw [hsplit]
+    refine chomp_sandwich' _ _ _ k0 61 (allBlank_allSpace hlead) ?_ ?_ ?_ hsk0 (by decide)
+    · intro x hx
+      simp only [List.mem_append] at hx
+      rcases hx with (hx | hx) | hx
+      · exact allBlank_allSpace hpost x hx
+      · exact allBlank_allSpace htrail x hx
+      · exact eol_allSpace eol x hx
+    · simp [List.head?_append, hk0]
+    · exact List.getLast?_eq_some_iff.mpr ⟨e.key ++ e.pre, by simp⟩
+  | some c =>
+    rw [hc] at hcm
+    simp only [IniSpec.Comment.wf, Bool.and_eq_true, Bool.or_eq_true, beq_iff_eq] at hcm
+    obtain ⟨u', t, hut, ht, hu'⟩ := rtrim_decomp (c.text ++ eol.bytes)
+    have hm : c.marker = 59 ∨ c.marker = 35 := hcm.1.symm
+    refine ⟨e.post ++ e.trail, c.marker :: u', ?_, Or.inr ⟨c.marker, u', rfl, hm⟩, ?_⟩
+    · intro x hx
+      simp only [List.mem_append] at hx
+      rcases hx with hx | hx
+      · exact allBlank_allSpace hpost x hx
+      · exact allBlank_allSpace htrail x hx
+    have hsplit : e.render ++ eol.bytes =
+        e.lead ++ ((e.key ++ e.pre) ++ 61 :: ((e.post ++ e.trail) ++ c.marker :: u')) ++ t := by
+      simp only [IniSpec.Entry.render, hc, hq0, hv0, IniSpec.Quote.bytes, IniSpec.Comment.render, List.append_assoc,
+        List.cons_append, List.nil_append, List.append_nil, hut]
+    rw [hsplit]
+    have hmsp : isSpace c.marker = false := by rcases hm with h | h <;> rw [h] <;> decide
+    obtain ⟨ym, hym, hsym⟩ : ∃ y, (c.marker :: u').getLast? = some y ∧ isSpace y = false := by
+      rcases hu' with hu' | ⟨y, hy, hsy⟩
+      · subst hu'; exact ⟨c.marker, rfl, hmsp⟩
+      · exact ⟨y, getLast?_cons_some _ _ _ hy, hsy⟩
+    refine chomp_sandwich' _ _ _ k0 ym (allBlank_allSpace hlead) ht ?_ ?_ hsk0 hsym
+    · simp [List.head?_append, hk0]
+    · apply getLast?_append_some
+      apply getLast?_cons_some
+      apply getLast?_append_some
+      exact hym
+
+/-- … and the loop does nothing with it -/
+theorem stepLine_entry_noValue (st : PState) (e : IniSpec.Entry) (post R : Bytes) (hwf : e.wf = true)
+    (hpost : AllSpace post) (hR : R = [] ∨ ∃ m u, R = m :: u ∧ (m = 59 ∨ m = 35)) :
+    stepLine true st ((e.key ++ e.pre) ++ 61 :: (post ++ R)) = st := by
+  simp only [IniSpec.Entry.wf, Bool.and_eq_true] at hwf
+  obtain ⟨⟨⟨⟨⟨⟨⟨⟨⟨⟨⟨⟨hlead, hpre⟩, _⟩, htrail⟩, hkplain⟩, hktrim⟩, hk61⟩, hk35⟩, hk59⟩, hk91⟩, hvplain⟩, hq⟩, hcm⟩ := hwf
+  obtain ⟨k0, kb, hk0, hkb, hsk0, hskb⟩ := trimmed_Trimmed hktrim
+  have hK : e.key ++ e.pre ≠ [] := by
+    intro h; simp only [List.append_eq_nil_iff] at h; rw [h.1] at hk0; simp at hk0
+  have hK61 : ∀ x ∈ e.key ++ e.pre, x ∉ [(61 : UInt8)] := by
+    intro x hx
+    simp only [List.mem_append] at hx
+    rcases hx with hx | hx
+    · exact not_contains hk61 x hx
+    · intro h; simp only [List.mem_singleton] at h; subst h
+      exact (allBlank_allSpace hpre).not_mem 61 (by decide) hx
+  have hT0 : bufAt ((e.key ++ e.pre) ++ 61 :: (post ++ R)) 0 = k0 := by
+    cases hk : e.key with
+    | nil => rw [hk] at hk0; simp at hk0
+    | cons a r => rw [hk] at hk0; simp only [List.head?_cons, Option.some.injEq] at hk0; subst hk0; simp [bufAt]
+  refine stepLine_none st _ ?_ (kv_none _ post R hK hK61 hpost hR)
+  rw [hT0]; intro h; subst h; simp [hk0] at hk91
 
 theorem avoid_append {c : UInt8} {a b : Bytes} (ha : ∀ x ∈ a, x ≠ c) (hb : ∀ x ∈ b, x ≠ c) : ∀ x ∈ a ++ b, x ≠ c := by
   intro x hx; simp only [List.mem_append] at hx
@@ -997,12 +1199,17 @@ theorem step_line (st : PState) (pfx : Bytes) (l : IniSpec.Line) (hwf : l.body.w
   | entry e =>
     rw [hb] at hwf hlen
     simp only [IniSpec.Body.wf] at hwf
-    obtain ⟨tail, htail, hch⟩ := chomp_entry e l.eol hwf
-    simp only [IniSpec.Body.render, bodyEffect] at hlen ⊢
-    rw [hch]
-    apply stepLine_entry st e tail hwf htail
-    rw [← hch]
-    exact Nat.le_trans (chomp_length_le _) hlen
+    by_cases hnv : NoValue e
+    · obtain ⟨post, R, hpost, hR, hch⟩ := chomp_entry_noValue e l.eol hwf hnv
+      simp only [IniSpec.Body.render, bodyEffect, binding_noValue e hnv]
+      rw [hch]
+      exact stepLine_entry_noValue st e post R hwf hpost hR
+    · obtain ⟨tail, htail, hch⟩ := chomp_entry e l.eol hwf hnv
+      simp only [IniSpec.Body.render, bodyEffect, binding_of_value e hnv] at hlen ⊢
+      rw [hch]
+      apply stepLine_entry st e tail hwf hnv htail
+      rw [← hch]
+      exact Nat.le_trans (chomp_length_le _) hlen
 
 theorem step_header (st : PState) (pfx : Bytes) (h : IniSpec.Header) (hwf : h.wf = true)
     (hsh : bomShift (pfx ++ h.render) = pfx.length) (hlen : h.render.length ≤ maxLine) :
@@ -1255,7 +1462,7 @@ theorem splitLines_eq (x : Bytes) : splitLines x = splitAux maxLine x [] 0 := rf
 theorem wf_rlines (σ : IniSpec.Style) (d : IniSpec.Doc) (h : IniSpec.WF σ d = true) :
     ∀ r ∈ docRLines d, r.wf = true := by
   simp only [IniSpec.WF, Bool.and_eq_true, List.all_eq_true] at h
-  obtain ⟨⟨⟨⟨hpre, hsecs⟩, _⟩, _⟩, _⟩ := h
+  obtain ⟨⟨⟨hpre, hsecs⟩, _⟩, _⟩ := h
   intro r hr
   simp only [docRLines, List.mem_append, List.mem_map, List.mem_flatMap] at hr
   rcases hr with ⟨l, hl, rfl⟩ | ⟨s, hs, hr⟩
@@ -1290,7 +1497,7 @@ theorem foldl_render (σ : IniSpec.Style) (d : IniSpec.Doc) (hwf : IniSpec.WF σ
     (splitLines (IniSpec.render σ d)).foldl (step true) st = (docRLines d).foldl rlineEffect st := by
   have hrw := wf_rlines σ d hwf
   simp only [IniSpec.WF, Bool.and_eq_true] at hwf
-  obtain ⟨⟨⟨_, _⟩, heols⟩, hlines⟩ := hwf
+  obtain ⟨⟨_, heols⟩, hlines⟩ := hwf
   rw [doc_eols_eq] at heols
   unfold IniSpec.linesOk at hlines
   unfold IniSpec.render
@@ -1331,7 +1538,10 @@ theorem foldl_body_none (body : List IniSpec.Line) (S : List Section) :
     simp only [List.map_cons, List.foldl_cons]
     have : rlineEffect ⟨S, none⟩ (RLine.body l) = ⟨S, none⟩ := by
       simp only [rlineEffect]
-      cases l.body <;> simp [bodyEffect, addKey]
+      cases l.body with
+      | blank ws => simp [bodyEffect]
+      | comment lead c => simp [bodyEffect]
+      | entry e => cases hbd : e.binding <;> simp [bodyEffect, addKey, hbd]
     rw [this]; exact ih
 
 theorem foldl_body_some (body : List IniSpec.Line) (S : List Section) (n : Bytes) (ks : List (Bytes × Bytes)) :
@@ -1349,9 +1559,15 @@ theorem foldl_body_some (body : List IniSpec.Line) (S : List Section) (n : Bytes
       have : rlineEffect ⟨S, some ⟨n, ks⟩⟩ (RLine.body l) = ⟨S, some ⟨n, ks⟩⟩ := by simp [rlineEffect, hb, bodyEffect]
       rw [this, ih]; simp [IniSpec.entriesOf, hb]
     | entry e =>
-      have : rlineEffect ⟨S, some ⟨n, ks⟩⟩ (RLine.body l) = ⟨S, some ⟨n, (e.key, e.value) :: ks⟩⟩ := by
-        simp [rlineEffect, hb, bodyEffect, addKey]
-      rw [this, ih]; simp [IniSpec.entriesOf, hb]
+      cases hbd : e.binding with
+      | none =>
+        have : rlineEffect ⟨S, some ⟨n, ks⟩⟩ (RLine.body l) = ⟨S, some ⟨n, ks⟩⟩ := by
+          simp [rlineEffect, hb, bodyEffect, hbd]
+        rw [this, ih]; simp [IniSpec.entriesOf, hb, hbd]
+      | some kv =>
+        have : rlineEffect ⟨S, some ⟨n, ks⟩⟩ (RLine.body l) = ⟨S, some ⟨n, kv :: ks⟩⟩ := by
+          simp [rlineEffect, hb, bodyEffect, addKey, hbd]
+        rw [this, ih]; simp [IniSpec.entriesOf, hb, hbd]
 
 /-- a whole section block: push what was current, start the new section, collect its keys -/
 def secStep (st : PState) (s : IniSpec.Sec) : PState := ⟨pushSection st, some (secOf s)⟩
@@ -1440,40 +1656,95 @@ theorem findSection_of_inj (f : IniFile) (hinj : ∀ x ∈ f, ∀ y ∈ f, x.nam
 theorem parameterString_none (f : IniFile) (n k : Bytes) : parameterString f n k none = findParameter f n k := by
   unfold parameterString; cases findParameter f n k <;> rfl
 
-theorem fileView_eq (f : IniFile) (hinj : ∀ x ∈ f, ∀ y ∈ f, x.name = y.name → x = y) :
-    fileView f = f.reverse.map sectionView := by
+theorem findSection_some_of_mem (f : IniFile) (x : Section) (hx : x ∈ f) :
+    ∃ y, findSection f x.name = some y ∧ y.name = x.name := by
+  unfold findSection
+  have h : (f.find? (·.name == x.name)).isSome = true := by
+    rw [List.find?_isSome]; exact ⟨x, hx, by simp⟩
+  obtain ⟨y, hy⟩ := Option.isSome_iff_exists.mp h
+  exact ⟨y, hy, by have := List.find?_some hy; simpa using this⟩
+
+/-- what the API shows under the name of `x`: the keys and values of the section a look-up of that name finds -/
+def viewAs (f : IniFile) (x : Section) : Bytes × List (Bytes × Bytes) :=
+  (x.name, (sectionView ((findSection f x.name).getD x)).2)
+
+theorem fileView_gen (f : IniFile) : fileView f = f.reverse.map (viewAs f) := by
   unfold fileView
   rw [sections_eq, ← List.map_reverse, List.map_map]
   apply List.map_congr_left
   intro x hx
   have hx' : x ∈ f := by simpa using hx
-  have hf := findSection_of_inj f hinj x hx'
-  simp only [Function.comp, sectionView, keys_of_find f x.name x hf, parameterString_none]
+  obtain ⟨y, hf, hyn⟩ := findSection_some_of_mem f x hx'
+  simp only [Function.comp, viewAs, sectionView, keys_of_find f x.name y hf, parameterString_none, hf, Option.getD_some]
   congr 1
   apply List.map_congr_left
   intro k _
   simp [findParameter, hf]
 
+theorem fileView_eq (f : IniFile) (hinj : ∀ x ∈ f, ∀ y ∈ f, x.name = y.name → x = y) :
+    fileView f = f.reverse.map sectionView := by
+  rw [fileView_gen]
+  apply List.map_congr_left
+  intro x hx
+  have hx' : x ∈ f := by simpa using hx
+  simp [viewAs, findSection_of_inj f hinj x hx', sectionView]
+
 theorem sectionView_secOf (s : IniSpec.Sec) :
     sectionView (secOf s) = (s.header.name, IniSpec.assoc (IniSpec.entriesOf s.body)) := by
   simp [sectionView, secOf, IniSpec.assoc, IniSpec.lastValue, List.map_reverse]
 
-theorem view_filter (l : List IniSpec.Sec) :
-    ((l.map secOf).filter hasKeys).map sectionView = IniSpec.meaningOf l := by
-  induction l with
-  | nil => rfl
-  | cons s rest ih =>
-    simp only [List.map_cons, List.filter_cons, IniSpec.meaningOf, List.filterMap_cons]
-    have hk : hasKeys (secOf s) = !(IniSpec.entriesOf s.body).isEmpty := by simp [hasKeys, secOf]
-    rw [hk]
-    by_cases he : (IniSpec.entriesOf s.body).isEmpty = true
-    · simp only [he, Bool.not_true, Bool.false_eq_true, if_false, if_true]
-      exact ih
-    · simp only [he, Bool.not_false, if_true, Bool.false_eq_true, if_false, List.map_cons, sectionView_secOf]
-      have : IniSpec.meaningOf rest = List.filterMap (fun s =>
-          if (IniSpec.entriesOf s.body).isEmpty = true then none
-          else some (s.header.name, IniSpec.assoc (IniSpec.entriesOf s.body))) rest := rfl
-      rw [← this, ← ih]
+theorem hasKeys_secOf : (hasKeys ∘ secOf) = IniSpec.Sec.assigns := by
+  funext s; simp [hasKeys, secOf, IniSpec.Sec.assigns]
+
+theorem filter_map_secOf (l : List IniSpec.Sec) :
+    (l.map secOf).filter hasKeys = (l.filter IniSpec.Sec.assigns).map secOf := by
+  rw [List.filter_map, hasKeys_secOf]
+
+theorem lookupOrder_snoc (init : List IniSpec.Sec) (last : IniSpec.Sec) :
+    IniSpec.lookupOrder (init ++ [last]) = init.reverse ++ [last] := by
+  simp [IniSpec.lookupOrder]
+
+/-- the parsed file of a well-formed document: its non-empty sections, in look-up order -/
+theorem parse_render_all (σ : IniSpec.Style) (d : IniSpec.Doc) (hwf : IniSpec.WF σ d = true) :
+    parse (IniSpec.render σ d) = ((IniSpec.lookupOrder d.secs).filter IniSpec.Sec.assigns).map secOf := by
+  cases hr : d.secs.reverse with
+  | nil =>
+    have hs : d.secs = [] := by simpa using hr
+    rw [parse_render_nosections σ d hwf hs, hs]; rfl
+  | cons last initRev =>
+    have hs : d.secs = initRev.reverse ++ [last] := by
+      have := congrArg List.reverse hr
+      simpa using this
+    rw [parse_render_sections σ d hwf initRev.reverse last hs, hs, lookupOrder_snoc, filter_map_secOf,
+      List.filter_append, List.map_append, List.reverse_reverse, ← List.map_reverse, ← List.filter_reverse,
+      List.reverse_reverse]
+    congr 1
+    have := filter_map_secOf [last]
+    simpa using this
+
+theorem findSection_map_secOf (L : List IniSpec.Sec) (n : Bytes) :
+    findSection (L.map secOf) n = (L.find? (·.header.name == n)).map secOf := by
+  unfold findSection
+  rw [List.find?_map]
+  rfl
+
+/-- the API view of the parsed rendering: the non-empty sections in listing order (the reverse of the look-up
+order: the final section first, then the others in file order), each with what a look-up of its name sees -/
+theorem fileView_parse_render (σ : IniSpec.Style) (d : IniSpec.Doc) (hwf : IniSpec.WF σ d = true) :
+    fileView (parse (IniSpec.render σ d)) = IniSpec.meaningIn d.secs (IniSpec.lookupOrder d.secs).reverse := by
+  rw [parse_render_all σ d hwf, fileView_gen, ← List.map_reverse, List.map_map]
+  unfold IniSpec.meaningIn
+  rw [List.filter_reverse]
+  apply List.map_congr_left
+  intro s _
+  simp only [Function.comp, viewAs, IniSpec.viewOf, IniSpec.seenSec, findSection_map_secOf]
+  have hname : (secOf s).name = s.header.name := rfl
+  rw [hname]
+  cases ((IniSpec.lookupOrder d.secs).filter IniSpec.Sec.assigns).find? (·.header.name == s.header.name) with
+  | none => simp [sectionView_secOf]
+  | some y => simp [sectionView_secOf]
+
+/-! ## the round trip as it was stated before repeated headers, `key =` and blanks inside quotes were admitted -/
 
 theorem distinct_inj {α} (g : α → Bytes) (l : List α) (h : IniSpec.distinct (l.map g) = true) :
     ∀ a ∈ l, ∀ b ∈ l, g a = g b → a = b := by
@@ -1490,36 +1761,144 @@ theorem distinct_inj {α} (g : α → Bytes) (l : List α) (h : IniSpec.distinct
     · subst hb; exact absurd hab (h.1 a ha)
     · exact ih h.2 a ha b hb hab
 
-/-- the API view of the parsed rendering: the last section first, then the others in file order -/
-theorem fileView_parse_render (σ : IniSpec.Style) (d : IniSpec.Doc) (hwf : IniSpec.WF σ d = true)
-    (init : List IniSpec.Sec) (last : IniSpec.Sec) (hs : d.secs = init ++ [last]) :
-    fileView (parse (IniSpec.render σ d)) = IniSpec.meaningOf [last] ++ IniSpec.meaningOf init := by
-  rw [parse_render_sections σ d hwf init last hs]
-  have hd : IniSpec.distinct (d.secs.map (·.header.name)) = true := by
-    simp only [IniSpec.WF, Bool.and_eq_true] at hwf
-    exact hwf.1.1.2
-  have hinjS := distinct_inj (fun s : IniSpec.Sec => s.header.name) d.secs hd
-  rw [fileView_eq]
-  · simp only [List.reverse_append, List.reverse_reverse, List.map_append]
-    rw [view_filter init]
-    have : ([secOf last].filter hasKeys).reverse = ([last].map secOf).filter hasKeys := by
-      simp only [List.map_cons, List.map_nil, List.filter_cons, List.filter_nil]
-      cases hasKeys (secOf last) <;> rfl
-    rw [this, view_filter [last]]
-  · -- names are injective on the parsed sections
-    have hmem : ∀ x ∈ ((init.map secOf).filter hasKeys).reverse ++ [secOf last].filter hasKeys,
-        ∃ s ∈ d.secs, x = secOf s := by
-      intro x hx
-      simp only [List.mem_append, List.mem_reverse, List.mem_filter, List.mem_map, List.mem_cons,
-        List.not_mem_nil, or_false] at hx
-      rcases hx with ⟨⟨s, hs', rfl⟩, _⟩ | ⟨rfl, _⟩
-      · exact ⟨s, by rw [hs]; simp [hs'], rfl⟩
-      · exact ⟨last, by rw [hs]; simp, rfl⟩
-    intro x hx y hy hxy
-    obtain ⟨s1, hs1, rfl⟩ := hmem x hx
-    obtain ⟨s2, hs2, rfl⟩ := hmem y hy
-    have : s1 = s2 := hinjS s1 hs1 s2 hs2 (by simpa [secOf] using hxy)
-    rw [this]
+theorem find?_of_inj {α} (g : α → Bytes) (l : List α) (hinj : ∀ a ∈ l, ∀ b ∈ l, g a = g b → a = b)
+    (x : α) (hx : x ∈ l) : l.find? (fun y => g y == g x) = some x := by
+  induction l with
+  | nil => simp at hx
+  | cons y l ih =>
+    simp only [List.find?_cons]
+    by_cases hy : g y = g x
+    · have : y = x := hinj y (by simp) x hx hy
+      subst this; simp
+    · have hne : (g y == g x) = false := by simp [hy]
+      simp only [hne]
+      have hx' : x ∈ l := by
+        simp only [List.mem_cons] at hx
+        rcases hx with hx | hx
+        · subst hx; exact absurd rfl hy
+        · exact hx
+      exact ih (fun a ha b hb => hinj a (by simp [ha]) b (by simp [hb])) hx'
+
+theorem mem_lookupOrder (all : List IniSpec.Sec) (s : IniSpec.Sec) : s ∈ IniSpec.lookupOrder all ↔ s ∈ all := by
+  unfold IniSpec.lookupOrder
+  cases hr : all.reverse with
+  | nil =>
+    have : all = [] := by simpa using hr
+    simp [this]
+  | cons last initRev =>
+    have hs : all = initRev.reverse ++ [last] := by
+      have := congrArg List.reverse hr
+      simpa using this
+    rw [hs]; simp
+
+/-- with distinct names a look-up sees *the* section of that name -/
+theorem seenSec_of_distinct (all : List IniSpec.Sec) (hd : IniSpec.distinct (all.map (·.header.name)) = true)
+    (s : IniSpec.Sec) (hs : s ∈ all) (ha : s.assigns = true) : IniSpec.seenSec all s.header.name = some s := by
+  unfold IniSpec.seenSec
+  apply find?_of_inj (fun x : IniSpec.Sec => x.header.name)
+  · intro a ha' b hb' hab
+    exact distinct_inj _ all hd a ((mem_lookupOrder all a).mp (List.mem_filter.mp ha').1)
+      b ((mem_lookupOrder all b).mp (List.mem_filter.mp hb').1) hab
+  · exact List.mem_filter.mpr ⟨(mem_lookupOrder all s).mpr hs, ha⟩
+
+theorem meaningOf_eq (secs : List IniSpec.Sec) :
+    IniSpec.meaningOf secs
+      = (secs.filter IniSpec.Sec.assigns).map fun s => (s.header.name, IniSpec.assoc (IniSpec.entriesOf s.body)) := by
+  induction secs with
+  | nil => rfl
+  | cons s rest ih =>
+    have ih' : List.filterMap (fun s : IniSpec.Sec =>
+        if (IniSpec.entriesOf s.body).isEmpty = true then none
+        else some (s.header.name, IniSpec.assoc (IniSpec.entriesOf s.body))) rest = _ := ih
+    simp only [IniSpec.meaningOf, List.filterMap_cons, List.filter_cons, IniSpec.Sec.assigns]
+    by_cases he : (IniSpec.entriesOf s.body).isEmpty = true
+    · simp only [he, if_true, Bool.not_true, Bool.false_eq_true, if_false]; exact ih'
+    · simp only [he, if_false, Bool.not_false, if_true, Bool.false_eq_true, List.map_cons]; rw [ih']
+
+/-- with distinct section names every section is read on its own -/
+theorem meaningIn_of_distinct (all : List IniSpec.Sec) (hd : IniSpec.distinct (all.map (·.header.name)) = true)
+    (secs : List IniSpec.Sec) (hsub : ∀ s ∈ secs, s ∈ all) : IniSpec.meaningIn all secs = IniSpec.meaningOf secs := by
+  rw [meaningOf_eq]
+  unfold IniSpec.meaningIn
+  apply List.map_congr_left
+  intro s hs
+  obtain ⟨hs1, hs2⟩ := List.mem_filter.mp hs
+  simp [IniSpec.viewOf, seenSec_of_distinct all hd s (hsub s hs1) hs2]
+
+/-- every `key = value` line read literally: the key and value fields as they are -/
+def literalEntries (body : List IniSpec.Line) : List (Bytes × Bytes) :=
+  body.filterMap fun l => match l.body with
+    | .entry e => some (e.key, e.value)
+    | _ => none
+
+def literalMeaning (secs : List IniSpec.Sec) : List (Bytes × List (Bytes × Bytes)) :=
+  secs.filterMap fun s =>
+    let es := literalEntries s.body
+    if es.isEmpty then none else some (s.header.name, IniSpec.assoc es)
+
+/-- what `Entry.wf` used to demand of a value: unquoted → not empty; quoted → empty or without blanks at its ends -/
+def entryStrict (e : IniSpec.Entry) : Bool :=
+  match e.quote with
+  | .none => !e.value.isEmpty
+  | _ => e.value.isEmpty || IniSpec.trimmed e.value
+
+def bodyStrict (body : List IniSpec.Line) : Bool :=
+  body.all fun l => match l.body with
+    | .entry e => entryStrict e
+    | _ => true
+
+/-- the restrictions the former `WF` had on top of the present one -/
+def Strict (d : IniSpec.Doc) : Bool :=
+  IniSpec.distinct (d.secs.map (·.header.name)) && d.secs.all fun s => bodyStrict s.body
+
+theorem trim_of_trimmed (v : Bytes) (h : IniSpec.trimmed v = true) : IniSpec.trim v = v := by
+  rw [← chomp_eq_trim]
+  have := chomp_of_trimmed_append v [] (trimmed_Trimmed h) (by intro x hx; simp at hx)
+  simpa using this
+
+theorem binding_strict (e : IniSpec.Entry) (h : entryStrict e = true) : e.binding = some (e.key, e.value) := by
+  unfold entryStrict at h
+  unfold IniSpec.Entry.binding
+  cases hq : e.quote with
+  | none => rw [hq] at h; simp only [Bool.not_eq_true'] at h; simp [h]
+  | single =>
+    rw [hq] at h
+    simp only [Bool.or_eq_true, List.isEmpty_iff] at h
+    rcases h with h | h
+    · rw [h]; rfl
+    · simp [trim_of_trimmed _ h]
+  | double =>
+    rw [hq] at h
+    simp only [Bool.or_eq_true, List.isEmpty_iff] at h
+    rcases h with h | h
+    · rw [h]; rfl
+    · simp [trim_of_trimmed _ h]
+
+theorem filterMap_congr' {α β} (f g : α → Option β) (l : List α) (h : ∀ x ∈ l, f x = g x) :
+    l.filterMap f = l.filterMap g := by
+  induction l with
+  | nil => rfl
+  | cons x l ih =>
+    simp only [List.filterMap_cons, h x (by simp)]
+    rw [ih (fun y hy => h y (by simp [hy]))]
+
+theorem entriesOf_strict (body : List IniSpec.Line) (h : bodyStrict body = true) :
+    IniSpec.entriesOf body = literalEntries body := by
+  unfold IniSpec.entriesOf literalEntries
+  apply filterMap_congr'
+  intro l hl
+  have := (List.all_eq_true.mp h) l hl
+  cases hb : l.body with
+  | blank ws => rfl
+  | comment lead c => rfl
+  | entry e => rw [hb] at this; exact binding_strict e this
+
+theorem meaningOf_strict (secs : List IniSpec.Sec) (h : ∀ s ∈ secs, bodyStrict s.body = true) :
+    IniSpec.meaningOf secs = literalMeaning secs := by
+  unfold IniSpec.meaningOf literalMeaning
+  apply filterMap_congr'
+  intro s hs
+  simp only [entriesOf_strict s.body (h s hs)]
 
 /-! ## getters -/
 
@@ -1866,78 +2245,6 @@ theorem apiFind_null (h : Option Handle) (sec key : Option Bytes) (hn : sec = no
   rcases hn with rfl | rfl
   · rfl
   · cases sec <;> rfl
-
-/-! ## `p_strchomp` is `trim` -/
-
-theorem isSpace_eq : isSpace = IniSpec.isSpace := rfl
-
-theorem dropWhile_append_stop {α} (p : α → Bool) (a : List α) (c : α) (t : List α)
-    (ha : ∀ x ∈ a, p x = true) (hc : p c = false) : (a ++ c :: t).dropWhile p = c :: t := by
-  induction a with
-  | nil => simp [List.dropWhile, hc]
-  | cons x xs ih =>
-    have hx := ha x (by simp)
-    simp only [List.cons_append, List.dropWhile_cons, hx, if_true]
-    exact ih (fun y hy => ha y (by simp [hy]))
-
-/-- any string is blanks followed by a block that does not start with a blank -/
-theorem ltrim_decomp (s : Bytes) :
-    ∃ l u, s = l ++ u ∧ AllSpace l ∧ u = s.dropWhile isSpace ∧ (u = [] ∨ ∃ y, u.head? = some y ∧ isSpace y = false) := by
-  induction s with
-  | nil => exact ⟨[], [], rfl, by intro x hx; simp at hx, rfl, Or.inl rfl⟩
-  | cons x v ih =>
-    by_cases hx : isSpace x = true
-    · obtain ⟨l, u, hv, hl, hu, hc⟩ := ih
-      refine ⟨x :: l, u, by simp [hv], ?_, ?_, hc⟩
-      · intro z hz; simp only [List.mem_cons] at hz
-        rcases hz with hz | hz
-        · subst hz; exact hx
-        · exact hl z hz
-      · simp [List.dropWhile_cons, hx, hu]
-    · refine ⟨[], x :: v, rfl, by intro z hz; simp at hz, ?_, Or.inr ⟨x, rfl, by simpa using hx⟩⟩
-      simp [List.dropWhile_cons, hx]
-
-theorem chomp_eq_trim (s : Bytes) : chomp s = IniSpec.trim s := by
-  obtain ⟨l, u, hs, hl, hu, hc⟩ := ltrim_decomp s
-  obtain ⟨u', t, hu2, ht, hc2⟩ := rtrim_decomp u
-  unfold IniSpec.trim
-  rw [← isSpace_eq, ← hu]
-  rcases hc2 with hnil | ⟨y, hy, hys⟩
-  · -- everything is blank
-    subst hnil
-    simp only [List.nil_append] at hu2
-    have hall : AllSpace s := by
-      intro x hx; rw [hs] at hx
-      rcases List.mem_append.mp hx with h | h
-      · exact hl x h
-      · rw [hu2] at h; exact ht x h
-    rw [chomp_allSpace s hall, hu2]
-    have : t.reverse.dropWhile isSpace = [] := dropWhile_all _ _ (fun x hx => ht x (by simpa using hx))
-    rw [this]; rfl
-  · -- u' is a non-empty block ending in a non-blank; it also starts with a non-blank
-    have hne : u' ≠ [] := by intro h; rw [h] at hy; simp at hy
-    obtain ⟨a, ha, has⟩ : ∃ a, u'.head? = some a ∧ isSpace a = false := by
-      rcases hc with h | ⟨a, ha, has⟩
-      · rw [h] at hu2
-        have : u' = [] := by
-          have := congrArg List.length hu2; simp at this; exact List.eq_nil_of_length_eq_zero (by omega)
-        exact absurd this hne
-      · refine ⟨a, ?_, has⟩
-        rw [hu2] at ha
-        cases u' with
-        | nil => exact absurd rfl hne
-        | cons b bs => simpa using ha
-    have h1 : chomp s = u' := by
-      rw [hs, hu2, ← List.append_assoc]
-      exact chomp_sandwich' l u' t a y hl ht ha hy has hys
-    rw [h1, hu2]
-    obtain ⟨ys, hY⟩ := List.getLast?_eq_some_iff.mp hy
-    rw [hY]
-    simp only [List.reverse_append, List.reverse_cons, List.reverse_nil, List.nil_append, List.singleton_append]
-    rw [dropWhile_append_stop isSpace t.reverse y ys.reverse (fun x hx => ht x (by simpa using hx)) hys]
-    simp
-
-
 
 /-- the result of `p_strchomp` is empty or starts and ends with a non-blank byte -/
 theorem chomp_shape (s : Bytes) :
